@@ -12,6 +12,7 @@ mod orch;
 mod props;
 mod refs;
 mod shrink;
+mod simhttp;
 
 use common::*;
 use std::io::{BufRead, Write};
